@@ -37,13 +37,44 @@ WHITELIST = [
     dict(cls=None, fn="ConvertSymbolToSignedInt", params=["unsigned int"]),
     dict(cls=None, fn="MostSignificantBit", params=["unsigned int"]),
     dict(cls=None, fn="AddAsUnsigned", params=["int", "int"]),
+    dict(cls=None, fn="IntSqrt", loop_fuel=64),
     dict(cls=None, fn="ComputeRAnsUnclampedPrecision", params=["int"]),
     dict(cls=None, fn="ComputeRAnsPrecisionFromUniqueSymbolsBitLength", params=["int"]),
+    dict(cls=None, fn="mem_put_le16"),
+    dict(cls=None, fn="mem_put_le24"),
+    dict(cls=None, fn="ans_write_end"),
+    dict(cls="RAnsDecoder", fn="read_init", targs=[12]),
+    dict(cls=None, fn="ans_read_init"),
+    dict(cls=None, fn="DecodeVarintUnsigned", params=["int", "unsigned int *", "draco::DecoderBuffer *"], suffix="_u32"),
+    dict(cls=None, fn="DecodeVarintUnsigned", params=["int", "unsigned long *", "draco::DecoderBuffer *"], suffix="_u64"),
+    dict(cls=None, fn="DecodeVarintUnsigned", params=["int", "unsigned int *", "draco::DecoderBuffer *"], suffix="_depthCheck_u32",
+         slice=dict(scope="body", first_decl="max_depth", count=2)),
+    dict(cls=None, fn="DecodeVarintUnsigned", params=["int", "unsigned long *", "draco::DecoderBuffer *"], suffix="_depthCheck_u64",
+         slice=dict(scope="body", first_decl="max_depth", count=2)),
+    dict(cls=None, fn="EncodeVarint", params=["unsigned int", "draco::EncoderBuffer *"], suffix="_u32"),
+    dict(cls=None, fn="EncodeVarint", params=["unsigned long", "draco::EncoderBuffer *"], suffix="_u64"),
+    dict(cls="RAnsSymbolEncoder", fn="EncodeTable", suffix="_sizeClass", slice=dict(first_decl="num_extra_bytes", count=2)),
+    dict(cls="MeshSequentialDecoder", fn="DecodeConnectivity", suffix="_indexWidth",
+         chain=dict(var="num_points", inputs=["bitstream_version"])),
+    dict(cls="MeshSequentialEncoder", fn="EncodeConnectivity", suffix="_indexWidth",
+         chain=dict(var="num_points", inputs=["num_points"])),
+    dict(cls=None, fn="ComputeParallelogramPrediction", suffix="_component",
+         slice=dict(first_decl="in_data_next_off", count=5)),
     dict(cls="OctahedronToolBox", fn="IsInDiamond"),
     dict(cls="OctahedronToolBox", fn="InvertDiamond"),
     dict(cls="OctahedronToolBox", fn="ModMax"),
     dict(cls="OctahedronToolBox", fn="MakePositive"),
     dict(cls="OctahedronToolBox", fn="CanonicalizeOctahedralCoords"),
+    dict(cls="OctahedronToolBox", fn="IntegerVectorToQuantizedOctahedralCoords"),
+    dict(cls="OctahedronToolBox", fn="CanonicalizeIntegerVector", params=["int *"]),
+    dict(cls="PredictionSchemeNormalOctahedronDecodingTransform", fn="ComputeOriginalValue",
+         params=["draco::VectorD<int, 2>", "const draco::VectorD<int, 2> &"]),
+    dict(cls="PredictionSchemeNormalOctahedronEncodingTransform", fn="ComputeCorrection",
+         params=["draco::VectorD<int, 2>", "draco::VectorD<int, 2>"]),
+    dict(cls=None, fn="DataTypeLength"),
+    dict(cls=None, fn="CountOneBits32"),
+    dict(cls=None, fn="ReverseBits32"),
+    dict(cls=None, fn="CopyBits32"),
     dict(cls="PredictionSchemeNormalOctahedronCanonicalizedTransformBase", fn="GetRotationCount"),
     dict(cls="PredictionSchemeNormalOctahedronCanonicalizedTransformBase", fn="RotatePoint"),
     dict(cls="PredictionSchemeNormalOctahedronCanonicalizedTransformBase", fn="IsInBottomLeft"),
@@ -64,10 +95,20 @@ TU_TEXT = """\
 #include "draco/compression/attributes/prediction_schemes/prediction_scheme_normal_octahedron_canonicalized_transform_base.h"
 #include "draco/compression/attributes/prediction_schemes/prediction_scheme_normal_octahedron_canonicalized_decoding_transform.h"
 #include "draco/compression/attributes/prediction_schemes/prediction_scheme_normal_octahedron_canonicalized_encoding_transform.h"
+#include "draco/compression/attributes/prediction_schemes/prediction_scheme_normal_octahedron_decoding_transform.h"
+#include "draco/compression/attributes/prediction_schemes/prediction_scheme_normal_octahedron_encoding_transform.h"
 #include "draco/compression/attributes/prediction_schemes/prediction_scheme_wrap_transform_base.h"
 #include "draco/compression/attributes/prediction_schemes/prediction_scheme_wrap_decoding_transform.h"
 #include "draco/compression/attributes/prediction_schemes/prediction_scheme_wrap_encoding_transform.h"
 #include "draco/compression/entropy/rans_symbol_coding.h"
+#include "draco/compression/entropy/rans_symbol_encoder.h"
+#include "draco/core/varint_encoding.h"
+#include "draco/core/varint_decoding.h"
+#include "draco/core/draco_types.cc"
+#include "draco/compression/attributes/prediction_schemes/mesh_prediction_scheme_parallelogram_shared.h"
+#include "draco/mesh/corner_table.h"
+#include "draco/compression/mesh/mesh_sequential_decoder.cc"
+#include "draco/compression/mesh/mesh_sequential_encoder.cc"
 static_assert(std::is_same<int8_t, signed char>::value && std::is_same<uint8_t, unsigned char>::value, "");
 static_assert(std::is_same<int16_t, short>::value && std::is_same<uint16_t, unsigned short>::value, "");
 static_assert(std::is_same<int32_t, int>::value && std::is_same<uint32_t, unsigned int>::value, "");
@@ -78,7 +119,18 @@ namespace draco {
 template uint32_t ConvertSignedIntToSymbol<int32_t>(int32_t);
 template int32_t ConvertSymbolToSignedInt<uint32_t>(uint32_t);
 template int32_t AddAsUnsigned<int32_t>(int32_t, int32_t);
+template bool ComputeParallelogramPrediction<CornerTable, int32_t>(int, const CornerIndex, const CornerTable *,
+    const std::vector<int32_t> &, const int32_t *, int, int32_t *);
+template class RAnsSymbolEncoder<12>;
+template class RAnsDecoder<12>;
+template bool DecodeVarint<uint32_t>(uint32_t *, DecoderBuffer *);
+template bool DecodeVarint<uint64_t>(uint64_t *, DecoderBuffer *);
+template bool EncodeVarint<uint32_t>(uint32_t, EncoderBuffer *);
+template bool EncodeVarint<uint64_t>(uint64_t, EncoderBuffer *);
 template class PredictionSchemeNormalOctahedronCanonicalizedTransformBase<int32_t>;
+template void OctahedronToolBox::CanonicalizeIntegerVector<int32_t>(int32_t *) const;
+template class PredictionSchemeNormalOctahedronDecodingTransform<int32_t>;
+template class PredictionSchemeNormalOctahedronEncodingTransform<int32_t>;
 template class PredictionSchemeNormalOctahedronTransformBase<int32_t>;
 template class PredictionSchemeNormalOctahedronCanonicalizedDecodingTransform<int32_t>;
 template class PredictionSchemeNormalOctahedronCanonicalizedEncodingTransform<int32_t>;
@@ -137,6 +189,10 @@ class CT:
             return "Bool"
         if self.kind == "vec2":
             return "Int × Int"
+        if self.kind == "wlog":
+            return "List (Int × Int)"
+        if self.kind in ("sink", "stream"):
+            return "List Int"
         raise XlateError(f"no Lean type for C type {self!r}")
 
     def __repr__(self):
@@ -153,6 +209,7 @@ class CT:
 
 
 _ALIAS_RESOLVER = None
+_ENUM_RESOLVER = None
 
 
 def parse_type(s, _depth=0):
@@ -163,19 +220,24 @@ def parse_type(s, _depth=0):
     if s.endswith("*"):
         inner = parse_type(s[:-1])
         return CT("ptr", to=inner)
+    if s.endswith("*const"):
+        return CT("ptr", to=parse_type(s[:-6].strip(), _depth), const=True)
     if s.endswith(" const"):
         s, const = s[:-6].strip(), True
     if s.startswith("const "):
         s, const = s[6:].strip(), True
     if s.endswith("*"):                      # `T *const`
         return CT("ptr", to=parse_type(s[:-1]), const=const)
+    for kw in ("struct ", "class "):
+        if s.startswith(kw):
+            s = s[len(kw):].strip()
     if s in _INT:
         sg, b = _INT[s]
         return CT("int", signed=sg, bits=b, const=const)
     if s in ("bool", "_Bool"):
         return CT("bool", const=const)
     if s == "void":
-        return CT("void")
+        return CT("void", const=const)
     m = re.fullmatch(r"(?:draco::)?VectorD<(.+), 2>", s)
     if m:
         el = parse_type(m.group(1))
@@ -189,6 +251,12 @@ def parse_type(s, _depth=0):
                 return CT("stdvec", to=el, const=const)
         except XlateError:
             pass
+    if _ENUM_RESOLVER is not None:
+        u = _ENUM_RESOLVER(s)
+        if u is not None:
+            t = parse_type(u, _depth + 1)
+            t.const = const
+            return t
     if _ALIAS_RESOLVER is not None and "::" in s and _depth == 0:
         r = _ALIAS_RESOLVER(s)
         if r is not None and r != s:
@@ -236,16 +304,55 @@ def load_objs(text):
     return objs
 
 
+def annotate_files(objs):
+    """clang prints the `file` of a source location only when it differs from the previously printed one:
+    replay that in document order and store the file of every location under `_file`"""
+    last = [None]
+
+    def walk(x):
+        if isinstance(x, dict):
+            if "offset" in x or "file" in x:
+                if "file" in x:
+                    last[0] = x["file"]
+                x["_file"] = last[0]
+            for kk, v in x.items():
+                if kk != "includedFrom" and isinstance(v, (dict, list)):
+                    walk(v)
+        elif isinstance(x, list):
+            for v in x:
+                walk(v)
+    walk(objs)
+
+
 class Index:
     def __init__(self, objs):
+        annotate_files(objs)
         self.byid = {}
         self.parent = {}
         self.roots = objs
         self.aliases = []
         for o in objs:
             self._walk(o, None)
-        global _ALIAS_RESOLVER
+        global _ALIAS_RESOLVER, _ENUM_RESOLVER
         _ALIAS_RESOLVER = self.resolve_alias
+        self.enums = {}
+        for i, n in self.byid.items():
+            if n.get("kind") == "EnumDecl" and n.get("name") and any(c.get("kind") == "EnumConstantDecl" for c in n.get("inner", [])):
+                ut = n.get("fixedUnderlyingType")
+                # an unscoped enum without fixed underlying type: `unsigned int` when no enumerator is negative (gcc/clang)
+                self.enums.setdefault(n["name"], []).append((ut.get("desugaredQualType") or ut["qualType"]) if ut else "unsigned int")
+        _ENUM_RESOLVER = self.resolve_enum
+
+    def resolve_enum(self, qual):
+        q = qual.strip()
+        if q.startswith("enum "):
+            q = q[5:]
+        if q.startswith("draco::"):
+            q = q[7:]
+        us = self.enums.get(q)
+        if us and len(set(us)) == 1:
+            return us[0]
+        return None
 
     def resolve_alias(self, qual):
         """`Cls<args>::Name` (a member typedef that clang printed without its desugared type) -> desugared type text"""
@@ -292,12 +399,15 @@ class Index:
                 stack.append((c, n))
 
     def class_of(self, decl):
+        if decl.get("parentDeclContextId") in self.byid and \
+                self.byid[decl["parentDeclContextId"]].get("kind") in ("CXXRecordDecl", "ClassTemplateSpecializationDecl"):
+            return self.byid[decl["parentDeclContextId"]]
         p = self.parent.get(decl["id"])
         while p is not None and p.get("kind") not in ("CXXRecordDecl", "ClassTemplateSpecializationDecl"):
             p = self.parent.get(p.get("id"))
         return p
 
-    def find_function(self, cls, fn, params):
+    def find_function(self, cls, fn, params, targs=None):
         hits = []
         seen = set()
         for i, n in self.byid.items():
@@ -313,6 +423,13 @@ class Index:
                         c.get("kind") == "TemplateArgument" for c in n.get("inner", [])):
                     continue            # the dependent pattern, not an instantiation
             else:
+                if par is not None and par.get("kind") == "FunctionTemplateDecl":
+                    if not any(c.get("kind") == "TemplateArgument" for c in n.get("inner", [])):
+                        continue
+                    par = self.parent.get(par.get("id"))
+                if (par is None or par.get("kind") not in ("CXXRecordDecl", "ClassTemplateSpecializationDecl")) and \
+                        n.get("parentDeclContextId") in self.byid:
+                    par = self.byid[n["parentDeclContextId"]]      # out-of-line definition
                 if par is None or par.get("name") != cls:
                     continue
                 if par.get("kind") == "CXXRecordDecl":
@@ -321,6 +438,11 @@ class Index:
                         continue        # the dependent pattern
                 elif par.get("kind") != "ClassTemplateSpecializationDecl":
                     continue
+                if targs is not None:
+                    got = [str(c.get("value")) if "value" in c else repr(parse_type(c["type"].get("desugaredQualType") or c["type"]["qualType"]))
+                           for c in par.get("inner", []) if c.get("kind") == "TemplateArgument"]
+                    if got != [str(x) for x in targs]:
+                        continue
             ptys = [repr(node_type(c)) for c in n.get("inner", []) if c.get("kind") == "ParmVarDecl"]
             if params is not None and ptys != [repr(parse_type(p)) for p in params]:
                 continue
@@ -408,11 +530,13 @@ class Ctx:
         self.ver = {}       # loc -> number of the last assignment (values are re-bound under the same name)
         self.loopvar = None
         self.loop_outer = None
+        self.bptr = {}      # loc of a byte pointer variable -> (base, Lean text of the offset)
 
     def copy(self):
         c = Ctx()
         c.vals, c.names, c.types, c.alias = dict(self.vals), self.names, self.types, self.alias
         c.ver = dict(self.ver)
+        c.bptr = dict(self.bptr)
         c.loopvar, c.loop_outer = self.loopvar, self.loop_outer
         return c
 
@@ -428,6 +552,9 @@ class Info:
         self.text = None
         self.pointwise = False
         self.ret_ct = None
+        self.fueled = False         # self-recursive: first parameter `fuel : Nat`, result `Option …`
+        self.optional = False       # contains bounded loops: result `Option …`
+        self.nparams = 0
 
 
 class Translator:
@@ -441,6 +568,7 @@ class Translator:
         self.struct_order = []
         self.src_cache = {}
         self.delegate = {}      # class id -> name of the member object that is `self`
+        self.trait_checks = []  # static_asserts that re-check the evaluated type traits with clang
 
     # ---- classes -------------------------------------------------------------------------------------
     def struct_class(self, cls):
@@ -453,8 +581,18 @@ class Translator:
         if not ints and len(bases) == 1:
             bt = bases[0]["type"]
             return self.struct_class(self.ix.find_class_by_type(bt.get("desugaredQualType") or bt["qualType"]))
-        objs = [c for c in own if node_type(c).kind == "class"]
-        if not ints and not bases and len(own) == 1 and len(objs) == 1:
+        objs = []
+        for c in own:
+            if node_type(c).kind == "class":
+                try:
+                    t0 = c["type"]
+                    inner0 = self.ix.find_class_by_type(t0.get("desugaredQualType") or t0["qualType"])
+                    if any(node_type(f).kind in ("int", "bool") for f in inner0.get("inner", []) if f.get("kind") == "FieldDecl"):
+                        objs.append(c)
+                except XlateError:
+                    pass
+        if not ints and not bases and len(objs) == 1:
+            own = objs
             # a wrapper around one member object (`octahedron_tool_box_`): `self` is that object
             t = own[0]["type"]
             inner = self.ix.find_class_by_type(t.get("desugaredQualType") or t["qualType"])
@@ -485,27 +623,80 @@ class Translator:
     # ---- entry ---------------------------------------------------------------------------------------
     def wl_entry(self, decl):
         cls = self.ix.class_of(decl)
+        ptys = [repr(node_type(c)) for c in decl.get("inner", []) if c.get("kind") == "ParmVarDecl"]
+        hits = []
         for w in self.wl:
             if w["fn"] == decl.get("name") and (w.get("cls") == (cls.get("name") if cls else None)):
-                return w
-        return {}
+                if w.get("params") is not None and [repr(parse_type(q)) for q in w["params"]] != ptys:
+                    continue
+                hits.append(w)
+        whole = [w for w in hits if not (w.get("slice") or w.get("chain"))]
+        return (whole or hits or [{}])[0]
 
-    def translate(self, decl):
-        i = decl["id"]
-        if i in self.done:
-            return self.done[i]
-        if i in self.in_progress:
-            raise XlateError(f"recursive call of {decl.get('name')}")
-        self.in_progress.add(i)
-        try:
+    def translate(self, decl, w=None):
+        """w: the whitelist entry (a whole function, a slice or a chain of it); calls from other functions (w = None)
+        mean the whole function"""
+        if w is None:
             w = self.wl_entry(decl)
-            ft = FuncTranslator(self, decl, pointwise=bool(w.get("pointwise")))
+            if w.get("slice") or w.get("chain"):
+                w = {k: v for k, v in w.items() if k not in ("slice", "chain", "suffix")}
+        part = bool(w.get("slice") or w.get("chain"))
+        key = decl["id"] + ("#" + w.get("suffix", "") if part else "")
+        i = decl["id"]
+        if key in self.done:
+            return self.done[key]
+        if key in self.in_progress:
+            raise XlateError(f"recursive call of {decl.get('name')}")
+        self.in_progress.add(key)
+        try:
+            ft = FuncTranslator(self, decl, pointwise=bool(w.get("pointwise")), suffix=w.get("suffix", ""),
+                                lazy_struct=part)
+            ft.loop_fuel = w.get("loop_fuel")
+            if w.get("slice"):
+                ft.select_slice(w["slice"])
+            if w.get("chain"):
+                ft.select_chain(w["chain"])
             info = ft.run()
         finally:
-            self.in_progress.discard(i)
-        self.done[i] = info
-        self.order.append(i)
+            self.in_progress.discard(key)
+        self.done[key] = info
+        self.order.append(key)
         return info
+
+    def trait_value(self, node, func_decl):
+        """`std::is_unsigned<T>::value` and friends inside an instantiated template: the expression's source text
+        (taken at the AST node's range) names the trait and the template parameter, the instantiation's template
+        arguments give T; the evaluation is re-checked by clang (`verify_traits`)"""
+        r = node.get("range", {})
+        b, e = r.get("begin", {}), r.get("end", {})
+        b = b.get("spellingLoc", b)
+        e = e.get("spellingLoc", e)
+        f = b.get("_file")
+        if f is None or "offset" not in b or "offset" not in e or e.get("_file") != f:
+            raise XlateError("no source range for a static constant")
+        if f not in self.src_cache:
+            self.src_cache[f] = open(f, "rb").read()
+        text = self.src_cache[f][b["offset"]: e["offset"] + e.get("tokLen", 0)].decode(errors="replace")
+        m = re.fullmatch(r"std::(is_unsigned|is_signed|is_integral)<\s*(\w+)\s*>::value", text.strip())
+        if not m:
+            raise XlateError(f"static constant `{text.strip()[:60]}` is not a supported type trait")
+        trait, pname = m.group(1), m.group(2)
+        par = self.ix.parent.get(func_decl["id"])
+        if par is None or par.get("kind") != "FunctionTemplateDecl":
+            raise XlateError("type trait outside a function template instantiation")
+        names = [c.get("name") for c in par.get("inner", []) if c.get("kind") == "TemplateTypeParmDecl"]
+        args = [c for c in func_decl.get("inner", []) if c.get("kind") == "TemplateArgument"]
+        if pname not in names or len(args) != len(names) or "type" not in args[names.index(pname)]:
+            raise XlateError(f"cannot bind the template parameter `{pname}`")
+        at = args[names.index(pname)]["type"]
+        ctext = at.get("desugaredQualType") or at["qualType"]
+        t = parse_type(ctext)
+        if t.kind not in ("int", "bool"):
+            raise XlateError(f"type trait of {t!r}")
+        val = {"is_unsigned": t.kind == "bool" or not t.signed, "is_signed": t.kind == "int" and t.signed,
+               "is_integral": True}[trait]
+        self.trait_checks.append(f"static_assert(std::{trait}<{ctext}>::value == {'true' if val else 'false'}, \"\");")
+        return val
 
     def source_text(self, node):
         """source text of an expression (used only to recognise `std::numeric_limits<…>::max()`)"""
@@ -517,8 +708,15 @@ class Translator:
 
 
 class FuncTranslator:
-    def __init__(self, tr, decl, pointwise):
+    def __init__(self, tr, decl, pointwise, suffix="", lazy_struct=False):
         self.tr, self.ix, self.decl, self.pointwise = tr, tr.ix, decl, pointwise
+        self.suffix = suffix
+        self.loop_fuel = None
+        self.slice = None
+        self.chain = False
+        self.abs_inputs = {}
+        self.slice_free = {}
+        self.slice_free_ptrs = set()
         self.cls = self.ix.class_of(decl)
         self.need_input = set()     # out locations that must also be inputs
         self.body = [c for c in decl.get("inner", []) if c.get("kind") == "CompoundStmt"][0]
@@ -526,10 +724,144 @@ class FuncTranslator:
         self.ret_ct = self._ret_type()
         self.uses_this = _contains(self.body, lambda n: n.get("kind") == "CXXThisExpr")
         self.struct_cls = None
-        if self.uses_this:
+        if self.uses_this and not lazy_struct:
             if self.cls is None:
                 raise XlateError("`this` outside a class")
             self.struct_cls = self.tr.struct_of(self.cls)
+
+    def select_slice(self, spec):
+        """translate only a run of consecutive statements of the body of the function's first `for` loop: the
+        statement that declares `spec['first_decl']` and the `spec['count'] - 1` statements after it.  Variables
+        of the function used in the run are its inputs; variables declared at the top of the run (or assigned in
+        it) and an early `return` are its outputs."""
+        loops = []
+
+        def walk(x):
+            if x.get("kind") == "ForStmt":
+                loops.append(x)
+            for c in x.get("inner", []) or []:
+                if isinstance(c, dict):
+                    walk(c)
+        walk(self.body)
+        if spec.get("scope") == "body":
+            lb = self.body
+        else:
+            if not loops:
+                raise XlateError("slice: the function has no for loop")
+            lb = (loops[0]["inner"] + [{}] * 5)[4]
+        if lb.get("kind") != "CompoundStmt":
+            raise XlateError("slice: the loop body is not a block")
+        ss = [c for c in lb.get("inner", []) if c.get("kind")]
+        at = [i for i, c in enumerate(ss) if c.get("kind") == "DeclStmt" and any(
+            d.get("kind") == "VarDecl" and d.get("name") == spec["first_decl"] for d in c.get("inner", []))]
+        if len(at) != 1 or at[0] + spec["count"] > len(ss):
+            raise XlateError(f"slice: declaration of `{spec['first_decl']}` not found in the loop body")
+        self.slice = ss[at[0]: at[0] + spec["count"]]
+        inside = set()
+
+        def decls(x):
+            if x.get("kind") in ("VarDecl",):
+                inside.add(x["id"])
+            for c in x.get("inner", []) or []:
+                if isinstance(c, dict):
+                    decls(c)
+        for st in self.slice:
+            decls(st)
+        self.slice_free = {}
+        self.slice_top = []
+        for st in self.slice:
+            if st.get("kind") == "DeclStmt":
+                for d in st.get("inner", []):
+                    if d.get("kind") == "VarDecl":
+                        self.slice_top.append(d)
+
+        def uses(x):
+            if x.get("kind") == "DeclRefExpr" and x["referencedDecl"].get("kind") in ("VarDecl", "ParmVarDecl") and \
+                    x["referencedDecl"]["id"] not in inside and x.get("nonOdrUseReason") != "constant":
+                self.slice_free.setdefault(x["referencedDecl"]["id"], (x["referencedDecl"].get("name"), node_type(x)))
+            for c in x.get("inner", []) or []:
+                if isinstance(c, dict):
+                    uses(c)
+        for st in self.slice:
+            uses(st)
+        self.slice_free_ptrs = {vid for vid, (nm, t) in self.slice_free.items() if t.kind == "ptr"}
+        wrapper = {"kind": "CompoundStmt", "inner": self.slice}
+        self.body = wrapper
+        self.parms = []
+        self.uses_this = _contains(wrapper, lambda n: n.get("kind") == "CXXThisExpr")
+        if self.uses_this and self.struct_cls is None:
+            self.struct_cls = self.tr.struct_of(self.cls)
+        self.slice_ret = self.ret_ct
+        self.ret_ct = self.ret_ct if _contains(wrapper, lambda n: n.get("kind") == "ReturnStmt") else CT("void")
+
+    def select_chain(self, spec):
+        """the decision skeleton of an `if / else if / …` chain: the function that maps the variables of the
+        conditions to the ordinal of the branch that is taken (0, 1, …; the final `else` or fall-through is the last
+        ordinal).  The chain is the first `if` whose condition compares `<var>` with a literal, where `<var>` is a variable or a
+        call of a zero-argument member function of that name; calls of the zero-argument member functions listed in
+        `inputs` are inputs of the skeleton (they are assumed to be pure getters)."""
+        var = spec["var"]
+        self.abs_inputs = {}
+        abs_names = set(spec.get("inputs", []))
+
+        def is_var(x):
+            x = _strip_casts(x)
+            if x.get("kind") == "DeclRefExpr" and x["referencedDecl"].get("name") == var:
+                return True
+            return x.get("kind") == "CXXMemberCallExpr" and x["inner"][0].get("name") == var and len(x["inner"]) == 1
+
+        found = []
+
+        def walk(x):
+            if found:
+                return
+            if x.get("kind") == "IfStmt":
+                c = _strip_casts(x["inner"][0])
+                if c.get("kind") == "BinaryOperator" and c.get("opcode") in ("<", "<=", ">", ">=", "==", "!=") and is_var(c["inner"][0]) and \
+                        _strip_casts(c["inner"][1]).get("kind") == "IntegerLiteral":
+                    found.append(x)
+                    return
+            for ch in x.get("inner", []) or []:
+                if isinstance(ch, dict):
+                    walk(ch)
+        walk(self.body)
+        if not found:
+            raise XlateError(f"chain: no `if ({var} <comparison> literal)` found")
+        conds, node = [], found[0]
+        while node is not None and node.get("kind") == "IfStmt":
+            if node.get("hasInit") or node.get("hasVar"):
+                raise XlateError("chain: if with init/condition variable")
+            conds.append(node["inner"][0])
+            node = node["inner"][2] if len(node["inner"]) > 2 else None
+        ity = {"qualType": "int"}
+
+        def ret(i):
+            return {"kind": "CompoundStmt", "inner": [{"kind": "ReturnStmt", "inner": [
+                {"kind": "IntegerLiteral", "value": str(i), "type": ity}]}]}
+        tree = ret(len(conds))
+        for i in range(len(conds) - 1, -1, -1):
+            tree = {"kind": "IfStmt", "inner": [conds[i], ret(i), tree]}
+        inside = set()
+        self.slice_free = {}
+
+        def uses(x):
+            if x.get("kind") == "CXXMemberCallExpr" and len(x["inner"]) == 1 and x["inner"][0].get("name") in abs_names:
+                self.abs_inputs.setdefault(x["inner"][0]["name"], node_type(x))
+                return
+            if x.get("kind") == "DeclRefExpr" and x["referencedDecl"].get("kind") in ("VarDecl", "ParmVarDecl") and \
+                    x.get("nonOdrUseReason") != "constant":
+                self.slice_free.setdefault(x["referencedDecl"]["id"], (x["referencedDecl"].get("name"), node_type(x)))
+            for c in x.get("inner", []) or []:
+                if isinstance(c, dict):
+                    uses(c)
+        for c in conds:
+            uses(c)
+        self.body = {"kind": "CompoundStmt", "inner": [tree]}
+        self.parms = []
+        self.chain = True
+        self.uses_this = False
+        self.struct_cls = None
+        self.ret_ct = CT("int", signed=True, bits=32)
 
     def _ret_type(self):
         """the result type: the (desugared) type of the returned expressions — clang converts every returned
@@ -612,7 +944,7 @@ class FuncTranslator:
         info.pointwise = self.pointwise
         info.ret_ct = self.ret_ct
         cname = (lean_ident(self.cls["name"]) + ".") if self.cls is not None else ""
-        info.lean_name = cname + lean_ident(self.decl["name"]) + ("_elem" if self.pointwise else "")
+        info.lean_name = cname + lean_ident(self.decl["name"]) + ("_elem" if self.pointwise else "") + self.suffix
         self.written_fields = []
         fields = []
         if self.struct_cls is not None:
@@ -631,6 +963,21 @@ class FuncTranslator:
                     ctx.names[loc] = self._alloc(c["name"] + "_i")
                     ctx.vals[loc] = None
         self.out_locs = []
+        self.sptr = {}
+        self.sink_params = set()
+        self.stream_params = {}
+        self.has_sink = False
+        self.has_log = False
+        self.log_base = None
+        self.pre = []
+        self.no_effect = 0
+        self.array_params = self._array_params()
+        info.nparams = len(self.parms)
+        self.fueled = _contains(self.body, lambda n: n.get("kind") == "CallExpr" and self._callee_id(n) == self.decl["id"])
+        info.fueled = self.fueled
+        # `while` / `do` loops (outside pointwise mode): bounded iteration `cWhile fuel`, result `Option …`
+        self.optional = (not self.pointwise) and _contains(self.body, lambda n: n.get("kind") in ("WhileStmt", "DoStmt"))
+        info.optional = self.optional
         for k, p in enumerate(self.parms):
             t = node_type(p)
             nm = p.get("name") or f"arg{k}"
@@ -639,6 +986,25 @@ class FuncTranslator:
                 ln = self._alloc(nm)
                 ctx.types[loc], ctx.names[loc], ctx.vals[loc] = t, ln, ln
                 info.params.append((ln, t.lean(), ("val", k)))
+            elif t.kind == "ptr" and t.to.kind == "int" and t.to.bits == 8 and t.to.const and not self.pointwise:
+                ln = self._alloc(nm)
+                ctx.bptr["v:" + p["id"]] = ("src:" + ln, "0")
+                info.params.append((ln, "Int → Int", ("src", k)))
+            elif t.kind == "ptr" and t.to.kind == "int" and t.to.bits == 8 and not t.to.const and not self.pointwise:
+                ctx.bptr["v:" + p["id"]] = ("p:" + p["id"], "0")
+            elif t.kind == "ptr" and t.to.kind == "int" and not self.pointwise and p["id"] in self.array_params:
+                # an array that is only accessed at constant indices: one location per index that occurs
+                for idx in sorted(self.array_params[p["id"]]):
+                    loc = f"ci:{p['id']}:{idx}"
+                    ln = self._alloc(f"{nm}_{idx}")
+                    ctx.types[loc], ctx.names[loc] = t.to, ln
+                    if t.to.const or loc in self.need_input:
+                        ctx.vals[loc] = ln
+                        info.params.append((ln, "Int", ("cidx", k, idx)))
+                    else:
+                        ctx.vals[loc] = None
+                    if not t.to.const:
+                        self.out_locs.append((loc, (k, idx)))
             elif t.kind == "ptr" and t.to.kind == "int":
                 loc = ("pe:" if self.pointwise else "d:") + p["id"]
                 ln = self._alloc(nm + ("_i" if self.pointwise else ""))
@@ -655,8 +1021,63 @@ class FuncTranslator:
                         info.params.append((ln, "Int", ("elem" if self.pointwise else "deref", k)))
                     else:
                         ctx.vals[loc] = None
+            elif self._is_bptr_type(t) and t.to.const and not self.pointwise:
+                ln = self._alloc(nm)
+                ctx.bptr["v:" + p["id"]] = ("src:" + ln, "0")
+                info.params.append((ln, "Int → Int", ("src", k)))
+            elif t.kind == "ptr" and t.to.kind == "void":
+                ctx.bptr["v:" + p["id"]] = ("p:" + p["id"], "0")
+            elif t.kind == "ptr" and t.to.kind == "class" and t.to.name.split("::")[-1] == "DecoderBuffer":
+                # a byte source with a position: the list of the bytes not yet consumed
+                ln = self._alloc(nm)
+                self.stream_params[p["id"]] = k
+                ctx.types["in:"], ctx.names["in:"], ctx.vals["in:"] = CT("stream"), ln, ln
+                info.params.append((ln, "List Int", ("stream", k)))
+            elif t.kind == "ptr" and t.to.kind == "class" and t.to.name.split("::")[-1] == "EncoderBuffer":
+                self.sink_params.add(p["id"])
+                self.has_sink = True
+            elif t.kind == "ptr" and t.to.kind == "class":
+                sc = self.ix.find_class_by_type(t.to.name)
+                if sc["id"] not in self.tr.structs:
+                    self.tr.struct_of(sc)
+                if self.tr.struct_class(sc)["id"] != sc["id"]:
+                    self.fail(f"parameter `{nm}`: pointer to a class with bases")
+                sname, sfields, _ = self.tr.structs[sc["id"]]
+                ln = self._alloc(nm)
+                info.params.append((ln, sname, ("struct", k)))
+                self.sptr[p["id"]] = (ln, sname, k, [f for (f, _) in sfields])
+                for (f, ft) in sfields:
+                    loc = f"g:{p['id']}:{f}"
+                    ctx.types[loc] = ft
+                    ctx.names[loc] = self._alloc(nm + "_" + f)
+                    ctx.vals[loc] = f"{ln}.{lean_ident(f)}"
             else:
                 self.fail(f"parameter `{nm}` of type {t!r} is not supported")
+        if self.chain:
+            for nm, t in self.abs_inputs.items():
+                ln = self._alloc(nm)
+                self.abs_names = getattr(self, "abs_names", {})
+                self.abs_names[nm] = (ln, CT(t.kind, t.signed, t.bits))
+                info.params.append((ln, t.lean(), ("val", -1)))
+        if self.slice is not None or self.chain:
+            self.wide_ptrs = set()
+            for vid, (nm, t) in list(self.slice_free.items()):
+                if t.kind == "ptr" and t.to.kind == "int":
+                    self.wide_ptrs.add(vid)
+                    if t.to.const:
+                        ln = self._alloc(nm)
+                        ctx.bptr["v:" + vid] = ("src:" + ln, "0")
+                        info.params.append((ln, "Int → Int", ("src", -1)))
+                    else:
+                        ctx.bptr["v:" + vid] = ("p:" + vid, "0")
+                    del self.slice_free[vid]
+            for vid, (nm, t) in self.slice_free.items():
+                if t.kind not in ("int", "bool"):
+                    self.fail(f"slice: free variable `{nm}` of type {t!r}")
+                loc = "v:" + vid
+                ln = self._alloc(nm)
+                ctx.types[loc], ctx.names[loc], ctx.vals[loc] = CT(t.kind, t.signed, t.bits), ln, ln
+                info.params.append((ln, t.lean(), ("val", -1)))
         self.ctx0 = ctx
         self.info = info
         # which fields are assigned anywhere (decides whether `self` is an output)
@@ -664,18 +1085,47 @@ class FuncTranslator:
         info.outs = []
         if self.ret_ct.kind != "void":
             info.outs.append(("ret", self.ret_ct))
+        if self.slice is not None:
+            for d in self.slice_top:
+                info.outs.append(("var", "v:" + d["id"]))
         if self.assigned_fields:
             info.outs.append(("self",))
+        self.assigned_sfields = self._assigned_sfields(self.body)
+        for pid, (ln, sname, k, fl) in self.sptr.items():
+            if self.assigned_sfields.get(pid):
+                info.outs.append(("sptr", k, pid))
         for (loc, k) in self.out_locs:
             info.outs.append(("out", k))
+        # byte output: a positional write log (raw pointers) or the bytes appended to an EncoderBuffer
+        self.has_log = self._writes_bytes()
+        if self.has_log and self.has_sink:
+            self.fail("raw byte writes and an EncoderBuffer in one function")
+        if self.has_log:
+            info.outs.append(("log",))
+            ctx.types["w:"], ctx.names["w:"], ctx.vals["w:"] = CT("wlog"), self._alloc("written"), "[]"
+        if self.stream_params:
+            info.outs.append(("stream",))
+        if self.has_sink:
+            info.outs.append(("sink",))
+            ctx.types["w:"], ctx.names["w:"], ctx.vals["w:"] = CT("sink"), self._alloc("appended"), "[]"
         if not info.outs:
             self.fail("function without any result")
         out_tys = []
         for o in info.outs:
-            if o[0] == "ret":
+            if o[0] == "ret" and self.slice is not None:
+                out_tys.append(f"Option {o[1].lean()}")
+            elif o[0] == "var":
+                out_tys.append(node_type([d for d in self.slice_top if "v:" + d["id"] == o[1]][0]).lean())
+            elif o[0] == "ret":
                 out_tys.append("Int" if (o[1].kind == "ptr" and self.pointwise) else o[1].lean())
             elif o[0] == "self":
                 out_tys.append(info.struct)
+            elif o[0] == "sptr":
+                out_tys.append(self.sptr[o[2]][1])
+            elif o[0] == "log":
+                out_tys.append("List (Int × Int)")
+            elif o[0] in ("sink", "stream"):
+                out_tys.append("List Int")
             else:
                 out_tys.append("Int")
         self.out_tys = out_tys
@@ -687,9 +1137,104 @@ class FuncTranslator:
             sig += f" (self : {info.struct})"
         for (ln, ty, _) in info.params:
             sig += f" ({ln} : {ty})"
-        head = f"def {info.lean_name}{sig} : {tuple_type(out_tys)} :="
+        rty = tuple_type(out_tys)
+        if self.fueled:
+            head = f"def {info.lean_name} (fuel : Nat){sig} : Option ({rty}) :="
+            lines = ["match fuel with", "| 0 => none", "| fuel + 1 =>"] + ["  " + l for l in lines]
+        elif self.optional:
+            head = f"def {info.lean_name}{sig} : Option ({rty}) :="
+        else:
+            head = f"def {info.lean_name}{sig} : {rty} :="
         info.text = "\n".join([head] + ["  " + l for l in lines])
         return info
+
+    def _array_params(self):
+        """pointer parameters that are subscripted: id -> set of constant indices (None in the set = a
+        non-constant index, which makes the parameter unsupported outside pointwise mode)"""
+        res = {}
+        ids = {p["id"] for p in self.parms}
+
+        def walk(x):
+            if x.get("kind") == "ArraySubscriptExpr":
+                b, i = _strip(x["inner"][0]), _strip(x["inner"][1])
+                if b.get("kind") == "DeclRefExpr" and b["referencedDecl"]["id"] in ids:
+                    res.setdefault(b["referencedDecl"]["id"], set()).add(
+                        int(i["value"]) if i.get("kind") == "IntegerLiteral" else None)
+            for c in x.get("inner", []) or []:
+                if isinstance(c, dict):
+                    walk(c)
+        walk(self.body)
+        return {k: v for k, v in res.items() if None not in v}
+
+    def _assigned_sfields(self, n):
+        out = {}
+
+        def walk(x):
+            k = x.get("kind")
+            tgt = None
+            if k in ("BinaryOperator", "CompoundAssignOperator") and (x.get("opcode") == "=" or k == "CompoundAssignOperator"):
+                tgt = x["inner"][0]
+            elif k == "UnaryOperator" and x.get("opcode") in ("++", "--"):
+                tgt = x["inner"][0]
+            if tgt is not None:
+                t = _strip(tgt)
+                if t.get("kind") == "MemberExpr":
+                    o = _strip(t["inner"][0])
+                    if o.get("kind") == "DeclRefExpr" and o["referencedDecl"]["id"] in self.sptr:
+                        out.setdefault(o["referencedDecl"]["id"], set()).add(t["name"])
+            for c in x.get("inner", []) or []:
+                if isinstance(c, dict):
+                    walk(c)
+        walk(n)
+        return out
+
+    def _writes_bytes(self):
+        """does the body store through a byte pointer, or call a function that does?"""
+        def pred(x):
+            k = x.get("kind")
+            if k == "BinaryOperator" and x.get("opcode") == "=":
+                l = _strip(x["inner"][0])
+                if l.get("kind") == "ArraySubscriptExpr" and (self._is_bptr_type(node_type(l["inner"][0])) or self._ptr_is_free_nonconst(l["inner"][0])):
+                    return True
+                if l.get("kind") == "UnaryOperator" and l.get("opcode") == "*" and self._is_bptr_type(node_type(l["inner"][0])):
+                    return True
+            if k == "CallExpr":
+                c = self.ix.byid.get(self._callee_id(x))
+                if c is not None and c["id"] != self.decl["id"] and _has_body(c) and c["id"] in self.tr.done and \
+                        any(o[0] == "log" for o in self.tr.done[c["id"]].outs):
+                    return True
+                if c is not None and c["id"] != self.decl["id"] and _has_body(c) and c["id"] not in self.tr.done and \
+                        c["id"] not in self.tr.in_progress and any(
+                            node_type(q).kind == "ptr" and node_type(q).to.kind == "void"
+                            for q in c.get("inner", []) if q.get("kind") == "ParmVarDecl"):
+                    try:
+                        return any(o[0] == "log" for o in self.tr.translate(c).outs)
+                    except XlateError:
+                        return False
+            return False
+        return _contains(self.body, pred)
+
+    @staticmethod
+    def _is_bptr_type(t):
+        return t.kind == "ptr" and ((t.to.kind == "int" and t.to.bits == 8) or t.to.kind == "void")
+
+    def _ptr_is_free_nonconst(self, e):
+        b = _strip(e)
+        if b.get("kind") != "DeclRefExpr" or self.slice is None:
+            return False
+        t = node_type(b)
+        return t.kind == "ptr" and t.to.kind == "int" and not t.to.const and b["referencedDecl"]["id"] in self.slice_free_ptrs
+
+    def _is_mem_ptr(self, e):
+        """a pointer expression that is modelled as a source / write log: byte pointers, and (in slices) the integer
+        array pointers that are free variables of the slice"""
+        t = node_type(e)
+        if self._is_bptr_type(t):
+            return True
+        b = _strip(e)
+        while b.get("kind") == "BinaryOperator" and b.get("opcode") in ("+", "-"):
+            b = _strip(b["inner"][0])
+        return b.get("kind") == "DeclRefExpr" and b["referencedDecl"]["id"] in getattr(self, "wide_ptrs", ())
 
     def _assigned_fields(self, n):
         out = set()
@@ -703,9 +1248,13 @@ class FuncTranslator:
                 tgt = x["inner"][0]
             if tgt is not None:
                 t = _strip(tgt)
-                if t.get("kind") == "MemberExpr" and _strip(t["inner"][0]).get("kind") == "CXXThisExpr":
-                    if node_type(t).kind in ("int", "bool"):
-                        out.add(t["name"])
+                if t.get("kind") == "MemberExpr":
+                    o = _strip(t["inner"][0])
+                    if o.get("kind") == "CXXThisExpr" or (
+                            o.get("kind") == "MemberExpr" and o.get("name") in self.tr.delegate.values() and
+                            _strip(o["inner"][0]).get("kind") == "CXXThisExpr"):
+                        if node_type(t).kind in ("int", "bool"):
+                            out.add(t["name"])
             for c in x.get("inner", []) or []:
                 if isinstance(c, dict):
                     walk(c)
@@ -716,13 +1265,27 @@ class FuncTranslator:
     def result(self, ctx, retval):
         parts = []
         for o in self.info.outs:
-            if o[0] == "ret":
+            if o[0] == "ret" and self.slice is not None:
+                parts.append("none" if retval is None else f"(some {retval})")
+            elif o[0] == "var":
+                if ctx.vals.get(o[1]) is None:
+                    self.fail("slice: an output variable is not assigned on some path")
+                parts.append(ctx.vals[o[1]])
+            elif o[0] == "ret":
                 if retval is None:
                     self.fail("control reaches the end of a non-void function")
                 parts.append(retval)
             elif o[0] == "self":
                 upd = ", ".join(f"{lean_ident(f)} := {ctx.vals['f:' + f]}" for f in self.assigned_fields)
                 parts.append("{ self with " + upd + " }")
+            elif o[0] == "sptr":
+                ln, sname, k, fl = self.sptr[o[2]]
+                upd = ", ".join(f"{lean_ident(f)} := {ctx.vals[f'g:{o[2]}:{f}']}" for f in fl if f in self.assigned_sfields[o[2]])
+                parts.append("{ " + ln + " with " + upd + " }")
+            elif o[0] in ("log", "sink"):
+                parts.append(ctx.vals["w:"])
+            elif o[0] == "stream":
+                parts.append(ctx.vals["in:"])
             else:
                 loc = [l for (l, k) in self.out_locs if k == o[1]][0]
                 v = ctx.vals[loc]
@@ -730,10 +1293,12 @@ class FuncTranslator:
                     self.need_input.add(loc)
                     raise _Retry()
                 parts.append(v)
+        if self.fueled or self.optional:
+            return ["some " + ("(" + ", ".join(parts) + ")" if len(parts) > 1 else "(" + parts[0] + ")")]
         return [tuple_text(parts)]
 
     def final_k(self, ctx):
-        if self.ret_ct.kind != "void":
+        if self.ret_ct.kind != "void" and self.slice is None:
             self.fail("control reaches the end of a non-void function")
         return self.result(ctx, None)
 
@@ -778,12 +1343,25 @@ class FuncTranslator:
             self.fail("dereference of something other than a pointer parameter", n)
         if k == "MemberExpr":
             obj = _strip(n["inner"][0])
-            if obj.get("kind") == "CXXThisExpr":
+            if obj.get("kind") == "DeclRefExpr" and obj["referencedDecl"]["id"] in self.sptr:
+                loc = f"g:{obj['referencedDecl']['id']}:{n['name']}"
+                if loc in ctx.types:
+                    return loc
+                self.fail(f"field `{n['name']}` of the structure parameter is not an integer field", n)
+            if obj.get("kind") == "CXXThisExpr" or (
+                    obj.get("kind") == "MemberExpr" and obj.get("name") in self.tr.delegate.values() and
+                    _strip(obj["inner"][0]).get("kind") == "CXXThisExpr"):
                 loc = "f:" + n["name"]
                 if loc in ctx.types:
                     return loc
                 self.fail(f"field `{n['name']}` is not an integer field of the `self` structure", n)
             self.fail("member of an object other than `this`", n)
+        if k == "ArraySubscriptExpr" and not self.pointwise:
+            base, idx = _strip(n["inner"][0]), _strip(n["inner"][1])
+            if base.get("kind") == "DeclRefExpr" and base["referencedDecl"]["id"] in self.array_params and \
+                    idx.get("kind") == "IntegerLiteral":
+                return f"ci:{base['referencedDecl']['id']}:{int(idx['value'])}"
+            self.fail("array subscript that is not a constant index of a pointer parameter", n)
         if k == "ArraySubscriptExpr":
             if not self.pointwise:
                 self.fail("array subscript outside pointwise mode", n)
@@ -825,6 +1403,10 @@ class FuncTranslator:
             return self.assign(ctx, base, new, lines)
         if ctx.loop_outer is not None and loc in ctx.loop_outer and loc[:2] in ("v:", "d:", "f:"):
             self.fail(f"the loop body assigns `{ctx.names[loc]}` declared outside the loop (loop-carried value)")
+        if loc.startswith("f:") and loc[2:] not in self.assigned_fields:
+            self.fail(f"internal: assignment to the field `{loc[2:]}` that was not recognised as an output")
+        if loc.startswith("g:") and loc.split(":")[2] not in self.assigned_sfields.get(loc.split(":")[1], ()):
+            self.fail(f"internal: assignment to the structure field `{loc}` that was not recognised as an output")
         t = ctx.types[loc]
         if t.const and ctx.vals.get(loc) is not None and not loc.startswith(("pe:", "fe:")):
             self.fail(f"assignment to const `{ctx.names[loc]}`")
@@ -866,29 +1448,61 @@ class FuncTranslator:
             else:
                 v, t = self.ev(e, ctx)
                 v = self.convert(v, t, self.ret_ct, e)
-            return self.result(ctx, v)
+            pre, self.pre = self.pre, []
+            return self._wrap_pre(pre, self.result(ctx, v))
         if kind == "IfStmt":
             return self.if_stmt(s, rest, ctx, k)
         if kind == "SwitchStmt":
             return self.switch_stmt(s, rest, ctx, k)
         if kind == "ForStmt":
             return self.for_stmt(s, rest, ctx, k)
+        if kind in ("WhileStmt", "DoStmt") and not self.pointwise:
+            return self.loop_stmt(s, rest, ctx, k)
         lines = []
         self.simple(s, ctx, lines)
-        return lines + self.stmts(rest, ctx, k)
+        pre, self.pre = self.pre, []
+        return self._wrap_pre(pre, lines + self.stmts(rest, ctx, k))
 
     def if_stmt(self, s, rest, ctx, k):
+        pre0 = self.pre
+        self.pre = []
+        lines = self.if_stmt_(s, rest, ctx, k)
+        return self._wrap_pre(pre0, lines)
+
+    def if_stmt_(self, s, rest, ctx, k):
         inner = s.get("inner", [])
         if s.get("hasInit") or s.get("hasVar"):
             self.fail("if with init/condition variable", s)
+        dec = self._decode_byte_pattern(inner[0], ctx)
+        if dec is not None:
+            # `if (!buffer->Decode(&x)) S` for a one-byte x: S runs when the source is exhausted (and must return),
+            # otherwise x is the next byte and the source advances
+            if len(inner) > 2:
+                self.fail("`if (!buffer->Decode(&x))` with an else branch", s)
+            tl = self.stmts([inner[1]], ctx.copy(), lambda c: self.fail("the failure branch of `buffer->Decode` does not return", s))
+            c2 = ctx.copy()
+            lines2 = []
+            hd = self._alloc("byte")
+            tlname = ctx.names["in:"]
+            self.assign(c2, dec, hd, lines2)
+            self.nassign += 1
+            c2.vals["in:"] = tlname
+            c2.ver["in:"] = self.nassign
+            rl = lines2 + self.stmts(rest, c2, k)
+            cur = ctx.vals["in:"]
+            return [f"match {cur} with", "| [] =>"] + ["  " + l for l in tl] + [f"| {hd} :: {tlname} =>"] + ["  " + l for l in rl]
         cond = self.cond(inner[0], ctx)
+        pre, self.pre = self.pre, []
         th = [inner[1]]
         el = [inner[2]] if len(inner) > 2 else []
-        if _contains(s, lambda n: n.get("kind") == "ReturnStmt"):
+        if cond in ("True", "False"):
+            # a compile-time constant of the instantiation (type trait): only the live branch exists
+            return self._wrap_pre(pre, self.stmts((th if cond == "True" else el) + rest, ctx, k))
+        if _contains(s, lambda n: n.get("kind") == "ReturnStmt") or self.fueled or self.optional or pre:
             cont = lambda c: self.stmts(rest, c, k)
             tl = self.stmts(th, ctx.copy(), cont)
             elc = self.stmts(el, ctx.copy(), cont)
-            return [f"if {cond} then"] + ["  " + l for l in tl] + ["else"] + ["  " + l for l in elc]
+            return self._wrap_pre(pre, [f"if {cond} then"] + ["  " + l for l in tl] + ["else"] + ["  " + l for l in elc])
         # join: both branches fall through.  One re-assigned location: `let x := if c then … else …`.
         # Several: the rest of the function is translated once per branch (no intermediate tuples; the generated
         # definition stays a decision tree whose leaves are the results, which is what the proofs split on)
@@ -953,9 +1567,31 @@ class FuncTranslator:
                 ctx.ver[l] = self.nassign
         return lines + self.stmts(rest, ctx, k)
 
+    def _decode_byte_pattern(self, c, ctx):
+        """`!buffer->Decode(&x)` with `buffer` this function's DecoderBuffer and `x` a one-byte integer lvalue -> loc of x"""
+        c = _strip(c)
+        if c.get("kind") != "UnaryOperator" or c.get("opcode") != "!":
+            return None
+        e = _strip(c["inner"][0])
+        if e.get("kind") != "CXXMemberCallExpr" or e["inner"][0].get("name") != "Decode" or len(e["inner"]) != 2:
+            return None
+        obj = _strip(e["inner"][0]["inner"][0])
+        if obj.get("kind") != "DeclRefExpr" or obj["referencedDecl"]["id"] not in self.stream_params:
+            return None
+        a = _strip(e["inner"][1])
+        if a.get("kind") != "UnaryOperator" or a.get("opcode") != "&":
+            self.fail("DecoderBuffer::Decode with an argument that is not `&lvalue`", c)
+        loc = self.lvalue(a["inner"][0], ctx)
+        t = self.loc_type(ctx, loc)
+        if t.kind != "int" or t.bits != 8 or t.signed:
+            self.fail("DecoderBuffer::Decode of something other than one unsigned byte", c)
+        return loc
+
     def switch_stmt(self, s, rest, ctx, k):
         inner = s.get("inner", [])
         v, t = self.ev(inner[0], ctx)
+        if self.pre:
+            self.fail("switch on an expression with effects", s)
         body = inner[1]
         if body.get("kind") != "CompoundStmt":
             self.fail("switch body is not a block", s)
@@ -963,11 +1599,18 @@ class FuncTranslator:
         for c in body.get("inner", []):
             ck = c.get("kind")
             if ck == "CaseStmt":
+                vals = []
                 ci = c["inner"]
-                if len(ci) != 2 or ci[1].get("kind") in ("CaseStmt", "DefaultStmt"):
-                    self.fail("stacked or ranged case labels", c)
-                cv, ct = self.ev(ci[0], ctx)
-                cur = [cv, [ci[1]]]
+                while True:
+                    if len(ci) != 2 or ci[1].get("kind") == "DefaultStmt":
+                        self.fail("ranged case label or case stacked on default", c)
+                    cv, ct = self.ev(ci[0], ctx)
+                    vals.append(cv)
+                    if ci[1].get("kind") == "CaseStmt":
+                        ci = ci[1]["inner"]
+                        continue
+                    break
+                cur = [vals, [ci[1]]]
                 cases.append(cur)
             elif ck == "DefaultStmt":
                 cur = [None, [c["inner"][0]]]
@@ -992,12 +1635,74 @@ class FuncTranslator:
                 lines += [ind + l for l in bl]
                 return lines
             bl = self.stmts(body_ss, ctx.copy(), k)
-            lines.append(ind + f"if {v} = {cv} then")
+            lines.append(ind + "if " + " ∨ ".join(f"{v} = {x}" for x in cv) + " then")
             lines += [ind + "  " + l for l in bl]
             lines.append(ind + "else")
             ind += "  "
         bl = self.stmts(rest, ctx, k)
         return lines + [ind + l for l in bl]
+
+    def loop_stmt(self, s, rest, ctx, k):
+        """`while (c) B` / `do B while (c)`: at most `loop_fuel` iterations (`CInt.cWhile`; `none` when the bound is
+        reached with the condition still true).  The loop state is the tuple of the variables assigned in B."""
+        fuel = self.loop_fuel
+        if not fuel:
+            self.fail("loop without a `loop_fuel` bound in the whitelist", s)
+        inner = [c for c in s.get("inner", []) if c.get("kind")]
+        if s["kind"] == "WhileStmt":
+            if len(inner) != 2:
+                self.fail("while with a condition variable", s)
+            cnode, body = inner
+        else:
+            body, cnode = inner
+        if _contains(body, lambda n: n.get("kind") in ("ReturnStmt", "BreakStmt", "ContinueStmt", "GotoStmt", "WhileStmt", "DoStmt", "ForStmt")):
+            self.fail("return/break/continue or a nested loop inside a loop", s)
+        # which locations does the body assign?
+        snap = (set(self.used), self.tmp, self.nassign)
+        trial = ctx.copy()
+        ends = []
+        self.stmts([body], trial, lambda c: (ends.append(c), ["@@"])[1])
+        if len(ends) != 1:
+            self.fail("loop body with branches that are not joined", s)
+        state = [l for l in ctx.vals if ends[0].ver.get(l) != ctx.ver.get(l)]
+        self.used, self.tmp, self.nassign = snap
+        if not state:
+            self.fail("loop that assigns nothing", s)
+        for l in state:
+            if ctx.vals[l] is None:
+                self.fail("loop state variable that is not initialised", s)
+        tys = [ctx.types[l].lean() for l in state]
+
+        def lam(node_is_cond):
+            c = ctx.copy()
+            lines = []
+            for i, l in enumerate(state):
+                nm = c.names[l]
+                lines.append(f"let {nm} : {tys[i]} := {proj('st', i, len(state))}")
+                c.vals[l] = nm
+            if node_is_cond:
+                lines.append(f"decide ({self.cond(cnode, c)})")
+                if self.pre:
+                    self.fail("loop condition with effects", s)
+            else:
+                lines += self.stmts([body], c, lambda cc: [tuple_text([cc.vals[l] for l in state])])
+            if any(x.rstrip().endswith(":=") or x.lstrip().startswith(("if ", "else", "match ", "|")) for x in lines):
+                self.fail("loop body / condition with branches", s)
+            return "(fun st => " + "; ".join(x.strip() for x in lines) + ")"
+        init = tuple_text([ctx.vals[l] for l in state])
+        lines = []
+        if s["kind"] == "DoStmt":
+            # the body once, then the loop
+            tail = []
+            self.tmp += 1
+            return self.stmts([body, {"kind": "WhileStmt", "inner": [cnode, body]}] + rest, ctx, k)
+        self.tmp += 1
+        rn = self._alloc(f"loop{self.tmp}")
+        pre = [f"@@BIND {rn} := cWhile {fuel} {lam(True)} {lam(False)} {init}"]
+        after = []
+        for i, l in enumerate(state):
+            self.assign(ctx, l, proj(rn, i, len(state)), after)
+        return self._wrap_pre(pre, after + self.stmts(rest, ctx, k))
 
     def for_stmt(self, s, rest, ctx, k):
         if not self.pointwise:
@@ -1059,6 +1764,34 @@ class FuncTranslator:
             return
         if kind in ("ExprWithCleanups", "ParenExpr"):
             return self.simple(s["inner"][0], ctx, lines)
+        if kind == "BinaryOperator" and s.get("opcode") == "=" and not self.pointwise and \
+                self._is_bptr_type(node_type(s["inner"][0])):
+            l0 = _strip(s["inner"][0])
+            if l0.get("kind") == "MemberExpr":
+                o = _strip(l0["inner"][0])
+                if o.get("kind") == "CXXThisExpr" or (o.get("kind") == "MemberExpr" and o.get("name") in self.tr.delegate.values()
+                                                      and _strip(o["inner"][0]).get("kind") == "CXXThisExpr"):
+                    ctx.bptr[f"fp:{l0['name']}"] = self.ev_bptr(s["inner"][1], ctx)
+                    return
+                if o.get("kind") == "DeclRefExpr" and o["referencedDecl"]["id"] in self.sptr:
+                    # `ans->buf = buf`: the pointer field is not represented; later reads through it resolve here
+                    ctx.bptr[f"gp:{o['referencedDecl']['id']}:{l0['name']}"] = self.ev_bptr(s["inner"][1], ctx)
+                    return
+            self.fail("assignment to a byte pointer", s)
+        if kind == "BinaryOperator" and s.get("opcode") == "=" and not self.pointwise:
+            l0 = _strip(s["inner"][0])
+            tgt = None
+            if l0.get("kind") == "ArraySubscriptExpr" and self._is_mem_ptr(l0["inner"][0]):
+                b, o = self.ev_bptr(l0["inner"][0], ctx)
+                iv, it = self.ev(l0["inner"][1], ctx)
+                tgt = (b, iv if o == "0" else f"({o} + {iv})")
+            elif l0.get("kind") == "UnaryOperator" and l0.get("opcode") == "*" and self._is_bptr_type(node_type(l0["inner"][0])):
+                tgt = self.ev_bptr(l0["inner"][0], ctx)
+            if tgt is not None:
+                v, t = self.ev(s["inner"][1], ctx)
+                v = self.convert(v, t, node_type(l0), s)
+                self.byte_write(ctx, tgt[0], tgt[1], v, lines)
+                return
         if kind == "BinaryOperator" and s.get("opcode") == "=":
             lhs, rhs = s["inner"]
             lt = node_type(lhs)
@@ -1118,7 +1851,64 @@ class FuncTranslator:
             return
         if kind in ("CallExpr", "CXXMemberCallExpr") and node_type(s).kind == "void":
             return self.call_stmt(s, ctx, lines)
+        if kind in ("CallExpr", "CXXMemberCallExpr") and (self.has_sink or self.has_log):
+            self.ev(s, ctx)         # result discarded; the effect is in self.pre
+            return
         self.fail("unsupported statement", s)
+
+    def ev_bptr(self, n, ctx):
+        """a pointer into a byte buffer -> (base, Lean text of the offset)"""
+        k = n.get("kind")
+        if k in ("ImplicitCastExpr", "CXXReinterpretCastExpr", "CStyleCastExpr", "CXXStaticCastExpr", "ParenExpr"):
+            if k == "ParenExpr" or n.get("castKind") in ("LValueToRValue", "NoOp", "BitCast"):
+                return self.ev_bptr(n["inner"][0], ctx)
+            self.fail(f"pointer cast {n.get('castKind')}", n)
+        if k == "DeclRefExpr":
+            loc = "v:" + n["referencedDecl"]["id"]
+            if loc in ctx.bptr:
+                return ctx.bptr[loc]
+            self.fail("pointer that is not a byte pointer parameter or local", n)
+        if k == "MemberExpr" and f"fp:{n.get('name')}" in ctx.bptr:
+            return ctx.bptr[f"fp:{n['name']}"]
+        if k == "MemberExpr":
+            obj = _strip(n["inner"][0])
+            if obj.get("kind") == "DeclRefExpr" and obj["referencedDecl"]["id"] in self.sptr and self._is_bptr_type(node_type(n)):
+                key = f"gp:{obj['referencedDecl']['id']}:{n['name']}"
+                if key in ctx.bptr:
+                    return ctx.bptr[key]
+                return (f"g:{obj['referencedDecl']['id']}:{n['name']}", "0")
+            self.fail("pointer field", n)
+        if k == "BinaryOperator" and n.get("opcode") in ("+", "-") and self._is_mem_ptr(n["inner"][0]):
+            b, o = self.ev_bptr(n["inner"][0], ctx)
+            v, vt = self.ev(n["inner"][1], ctx)
+            if vt.kind != "int":
+                self.fail("pointer arithmetic with a non-integer", n)
+            if n["opcode"] == "-":
+                return (b, f"({o} - {v})")
+            return (b, v if o == "0" else f"({o} + {v})")
+        self.fail("unsupported byte pointer expression", n)
+
+    def byte_write(self, ctx, base, off, val, lines):
+        if self.log_base is None:
+            self.log_base = base
+        if self.log_base != base:
+            self.fail("byte writes through two different pointers")
+        self.assign(ctx, "w:", f"({ctx.vals['w:']} ++ [({off}, {val})])", lines)
+
+    def flush_pre(self, lines):
+        """statements produced while evaluating the expressions of the current statement (calls with effects)"""
+        pre, self.pre = self.pre, []
+        return self._wrap_pre(pre, lines)
+
+    def _wrap_pre(self, pre, rest):
+        out = []
+        for i, l in enumerate(pre):
+            if l.startswith("@@BIND "):
+                name, expr = l[7:].split(" := ", 1)
+                inner = self._wrap_pre(pre[i + 1:], rest)
+                return out + [f"match {expr} with", "| none => none", f"| some {name} =>"] + ["  " + x for x in inner]
+            out.append(l)
+        return out + rest
 
     def ptr_arg_loc(self, a, ctx):
         """the location a pointer argument points to: `&lvalue` or a pointer parameter passed on"""
@@ -1144,7 +1934,7 @@ class FuncTranslator:
                 _strip(obj["inner"][0]).get("kind") == "CXXThisExpr")
             if not ok:
                 self.fail(f"member call `{name}` on an object other than `this`", n)
-        info = self.tr.translate(callee)
+        info = self.info if callee["id"] == self.decl["id"] else self.tr.translate(callee)
         if info.struct is not None and self.info.struct != info.struct:
             self.fail(f"call of `{name}` needs `self : {info.struct}`", n)
         cparms = [c for c in callee.get("inner", []) if c.get("kind") == "ParmVarDecl"]
@@ -1152,10 +1942,86 @@ class FuncTranslator:
             self.fail(f"call of `{name}` with default arguments", n)
         return name, callee, info, cparms
 
+    def effect_call(self, n, ctx, name, callee, info, cparms):
+        """a call of a translated function that appends bytes (and/or is recursive with fuel): bound in a `let`
+        (resp. an `Option` match) before the statement that contains it"""
+        if self.no_effect:
+            self.fail("call with effects inside `&&`, `||` or `?:`", n)
+        args = n["inner"][1:]
+        kinds = [o[0] for o in info.outs]
+        if any(x not in ("ret", "sink", "log", "out", "stream") for x in kinds):
+            self.fail(f"call of `{name}` that modifies an object inside an expression", n)
+        texts = []
+        for (ln, ty, how) in info.params:
+            if how[0] == "val":
+                v, vt = self.ev(args[how[1]], ctx)
+                texts.append(self.convert(v, vt, node_type(cparms[how[1]]), n))
+            elif how[0] == "deref" and not self.pointwise:
+                texts.append(self.read(ctx, self.ptr_arg_loc(args[how[1]], ctx), n))
+            elif how[0] == "stream":
+                a = _strip(args[how[1]])
+                if not (a.get("kind") == "DeclRefExpr" and a["referencedDecl"]["id"] in self.stream_params):
+                    self.fail(f"call of `{name}`: the source argument is not this function's DecoderBuffer", n)
+                texts.append(ctx.vals["in:"])
+            else:
+                self.fail(f"call of `{name}` with an unsupported pointer argument", n)
+        off = None
+        for j, q in enumerate(cparms):
+            qt = node_type(q)
+            if qt.kind == "ptr" and qt.to.kind == "class" and qt.to.name.split("::")[-1] == "DecoderBuffer":
+                continue
+            if qt.kind == "ptr" and qt.to.kind == "class":
+                a = _strip(args[j])
+                if not (a.get("kind") == "DeclRefExpr" and a["referencedDecl"]["id"] in self.sink_params):
+                    self.fail(f"call of `{name}`: the buffer argument is not this function's buffer", n)
+            elif self._is_bptr_type(qt):
+                if off is not None:
+                    self.fail(f"call of `{name}` with two byte pointers", n)
+                off = self.ev_bptr(args[j], ctx)
+        if info.fueled:
+            if callee["id"] != self.decl["id"]:
+                self.fail(f"call of the recursive function `{name}` from another function", n)
+            callt = f"{info.lean_name} fuel" + "".join(" " + x for x in texts)
+        else:
+            callt = info.lean_name + (" self" if info.struct else "") + "".join(" " + x for x in texts)
+        self.tmp += 1
+        rn = self._alloc(f"r{self.tmp}")
+        if info.fueled:
+            self.pre.append(f"@@BIND {rn} := {callt}")
+        else:
+            tys = [("Int" if o[0] == "ret" and o[1].kind == "int" else "Bool" if o[0] == "ret" else "Int" if o[0] == "out" else
+                    "List Int" if o[0] in ("sink", "stream") else "List (Int × Int)") for o in info.outs]
+            self.pre.append(f"let {rn} : {tuple_type(tys)} := {callt}")
+        ret = None
+        for i, o in enumerate(info.outs):
+            pr = proj(rn, i, len(info.outs))
+            if o[0] == "ret":
+                ret = (pr, o[1])
+            elif o[0] == "sink":
+                self.assign(ctx, "w:", f"({ctx.vals['w:']} ++ {pr})", self.pre)
+            elif o[0] == "stream":
+                self.assign(ctx, "in:", pr, self.pre)
+            elif o[0] == "out":
+                self.assign(ctx, self.ptr_arg_loc(args[o[1]], ctx), pr, self.pre)
+            else:
+                if off is None:
+                    self.fail(f"call of `{name}` without a byte pointer", n)
+                if self.log_base is None:
+                    self.log_base = off[0]
+                if self.log_base != off[0]:
+                    self.fail("byte writes through two different pointers", n)
+                self.assign(ctx, "w:", f"({ctx.vals['w:']} ++ shiftLog {off[1]} {pr})", self.pre)
+        if ret is None:
+            return "()", CT("void")
+        return ret
+
     def call_stmt(self, n, ctx, lines):
         """a call whose results are its output parameters: `f(a, &x, &y);`"""
         name, callee, info, cparms = self.resolve_callee(n, ctx)
         args = n["inner"][1:]
+        if any(o[0] in ("sink", "log", "stream") for o in info.outs) or info.fueled:
+            self.effect_call(n, ctx, name, callee, info, cparms)
+            return
         if any(o[0] != "out" for o in info.outs):
             self.fail(f"call statement of `{name}` which returns a value or modifies the object", n)
         texts = []
@@ -1189,6 +2055,13 @@ class FuncTranslator:
             if len(inner) != 1:
                 self.fail("reference without initialiser", d)
             ctx.alias[d["id"]] = self.lvalue(inner[0], ctx)
+            return
+        if self._is_bptr_type(t) and not self.pointwise:
+            if len(inner) != 1:
+                self.fail("byte pointer without initialiser", d)
+            if not (t.const or "*const" in t0.replace(" ", "")) and _contains(self.body, lambda x: x.get("kind") in ("BinaryOperator", "CompoundAssignOperator", "UnaryOperator") and x.get("opcode") in ("=", "+=", "-=", "++", "--") and _strip(x["inner"][0]).get("kind") == "DeclRefExpr" and _strip(x["inner"][0])["referencedDecl"]["id"] == d["id"]):
+                self.fail("byte pointer variable that is modified", d)
+            ctx.bptr["v:" + d["id"]] = self.ev_bptr(inner[0], ctx)
             return
         if d.get("storageClass") or d.get("tls"):
             self.fail(f"local variable `{d.get('name')}` with storage class {d.get('storageClass') or d.get('tls')}", d)
@@ -1268,10 +2141,17 @@ class FuncTranslator:
         n0 = _strip(n)
         k = n0.get("kind")
         if k == "BinaryOperator" and n0.get("opcode") in ("&&", "||"):
-            a, b = self.cond(n0["inner"][0], ctx), self.cond(n0["inner"][1], ctx)
+            self.no_effect += 1
+            try:
+                a, b = self.cond(n0["inner"][0], ctx), self.cond(n0["inner"][1], ctx)
+            finally:
+                self.no_effect -= 1
             return f"({a} {'∧' if n0['opcode'] == '&&' else '∨'} {b})"
         if k == "UnaryOperator" and n0.get("opcode") == "!":
-            return f"(¬ ({self.cond(n0['inner'][0], ctx)}))"
+            c = self.cond(n0['inner'][0], ctx)
+            if c in ("True", "False"):
+                return "False" if c == "True" else "True"
+            return f"(¬ ({c}))"
         v, t = self.ev(n, ctx)
         if t.kind == "int":
             return f"({v} ≠ 0)"
@@ -1310,11 +2190,23 @@ class FuncTranslator:
     def ev(self, n, ctx):
         """-> (Lean text, CT) of a pure expression"""
         k = n.get("kind")
-        if k in ("ParenExpr", "ExprWithCleanups", "MaterializeTemporaryExpr", "ConstantExpr", "CXXBindTemporaryExpr",
-                 "SubstNonTypeTemplateParmExpr"):
+        if k == "ConstantExpr" and "value" in n and node_type(n).kind == "int" and re.fullmatch(r"-?\d+", str(n["value"])):
+            v = int(n["value"])
+            return (str(v) if v >= 0 else f"({v})"), node_type(n)
+        if k == "SubstNonTypeTemplateParmExpr":
+            ex = [c for c in n.get("inner", []) if c.get("kind") and not c["kind"].endswith("Decl")]
+            if len(ex) != 1:
+                self.fail("substituted template parameter", n)
+            return self.ev(ex[0], ctx)
+        if k in ("ParenExpr", "ExprWithCleanups", "MaterializeTemporaryExpr", "ConstantExpr", "CXXBindTemporaryExpr"):
             return self.ev(n["inner"][0], ctx)
         if k == "IntegerLiteral":
             return n["value"], node_type(n)
+        if k == "UnaryExprOrTypeTraitExpr" and n.get("name") == "sizeof" and "argType" in n:
+            at = parse_type(n["argType"].get("desugaredQualType") or n["argType"]["qualType"])
+            if at.kind != "int":
+                self.fail("sizeof of a non-integer type", n)
+            return str(at.bits // 8), node_type(n)
         if k == "CXXBoolLiteralExpr":
             return ("true" if n["value"] else "false"), CT("bool")
         if k in ("ImplicitCastExpr", "CXXStaticCastExpr", "CStyleCastExpr", "CXXFunctionalCastExpr"):
@@ -1330,6 +2222,8 @@ class FuncTranslator:
             if ck in ("IntegralCast", "IntegralToBoolean"):
                 v, vt = self.ev(n["inner"][0], ctx)
                 return self.convert(v, vt, t, n), t
+            if ck == "ConstructorConversion" and t.kind == "vec2":
+                return self.ev(n["inner"][0], ctx)
             self.fail(f"cast kind {ck}", n)
         if k == "UnaryOperator":
             op = n.get("opcode")
@@ -1371,23 +2265,42 @@ class FuncTranslator:
                 return f"(decide ({a} {lop} {b}))", CT("bool")
             return self.binop(op, a, at, b, bt, node_type(n), n), node_type(n)
         if k == "ConditionalOperator":
-            c = self.cond(n["inner"][0], ctx)
-            a, at = self.ev(n["inner"][1], ctx)
-            b, bt = self.ev(n["inner"][2], ctx)
+            self.no_effect += 1
+            try:
+                c = self.cond(n["inner"][0], ctx)
+                a, at = self.ev(n["inner"][1], ctx)
+                b, bt = self.ev(n["inner"][2], ctx)
+            finally:
+                self.no_effect -= 1
             t = node_type(n)
             return f"(if {c} then {self.convert(a, at, t, n)} else {self.convert(b, bt, t, n)})", t
         if k == "DeclRefExpr":
             rk = n["referencedDecl"].get("kind")
             if rk not in ("VarDecl", "ParmVarDecl"):
                 self.fail(f"reference to a {rk}", n)
+            if rk == "VarDecl" and n.get("nonOdrUseReason") == "constant" and node_type(n).kind == "bool" and \
+                    ("v:" + n["referencedDecl"]["id"]) not in ctx.types and n["referencedDecl"]["id"] not in ctx.alias:
+                return ("true" if self.tr.trait_value(n, self.decl) else "false"), CT("bool")
+            if rk == "VarDecl" and ("v:" + n["referencedDecl"]["id"]) not in ctx.types and \
+                    n["referencedDecl"]["id"] not in ctx.alias and node_type(n).kind == "int" and node_type(n).const:
+                return self.static_const(n, ctx)
             loc = self.lvalue(n, ctx)
             return self.read(ctx, loc, n), ctx.types[loc]
+        if k == "MemberExpr" and n.get("referencedMemberDecl") in self.ix.byid and \
+                self.ix.byid[n["referencedMemberDecl"]].get("kind") == "VarDecl" and node_type(n).kind == "int" and node_type(n).const:
+            return self.static_const(n, ctx, n["referencedMemberDecl"])
         if k == "MemberExpr":
             loc = self.lvalue(n, ctx)
             return self.read(ctx, loc, n), ctx.types[loc]
+        if k == "ArraySubscriptExpr" and not self.pointwise and self._is_mem_ptr(n["inner"][0]):
+            b, o = self.ev_bptr(n["inner"][0], ctx)
+            if not b.startswith("src:"):
+                self.fail("read through a pointer that is written through", n)
+            iv, it = self.ev(n["inner"][1], ctx)
+            return f"({b[4:]} {iv if o == '0' else f'({o} + {iv})'})", node_type(n)
         if k == "ArraySubscriptExpr":
             loc = self.lvalue(n, ctx)
-            return self.read(ctx, loc, n), ctx.types[loc]
+            return self.read(ctx, loc, n), self.loc_type(ctx, loc)
         if k in ("CXXTemporaryObjectExpr", "CXXConstructExpr"):
             t = node_type(n)
             args = [c for c in n.get("inner", []) if c.get("kind")]
@@ -1400,10 +2313,33 @@ class FuncTranslator:
                     a, at = self.ev(args[0], ctx)
                     if at.kind == "vec2" and at.to.same(t.to):
                         return a, t
+                    if at.kind == "vec2":
+                        # draco::VectorD<T, N>(const VectorD<U, N> &): component-wise `T(src[i])` (core/vector_d.h)
+                        return f"({self.convert(a + '.1', at.to, t.to, n)}, {self.convert(a + '.2', at.to, t.to, n)})", t
             self.fail("constructor call", n)
+        if k == "CXXMemberCallExpr" and self.chain and len(n["inner"]) == 1 and \
+                n["inner"][0].get("name") in getattr(self, "abs_names", {}):
+            return self.abs_names[n["inner"][0]["name"]]
         if k in ("CallExpr", "CXXMemberCallExpr", "CXXOperatorCallExpr"):
             return self.call(n, ctx)
         self.fail("unsupported expression", n)
+
+    def static_const(self, n, ctx, vid=None):
+        """a `static constexpr`/`const` integer with an initialiser (class constant, namespace constant)"""
+        vid = vid or n["referencedDecl"]["id"]
+        d = self.ix.byid.get(vid)
+        init = [c for c in (d or {}).get("inner", []) if c.get("kind") and not c["kind"].endswith("Attr")] if d else []
+        if d is None or d.get("kind") != "VarDecl" or len(init) != 1 or not (d.get("constexpr") or node_type(d).const):
+            self.fail("constant whose initialiser is not available", n)
+        self.const_depth = getattr(self, "const_depth", 0) + 1
+        if self.const_depth > 8:
+            self.fail("constants nested too deeply", n)
+        try:
+            v, vt = self.ev(init[0], Ctx())
+        finally:
+            self.const_depth -= 1
+        t = node_type(d)
+        return self.convert(v, vt, t, n), t
 
     def ev_ptr(self, n, ctx):
         """pointwise mode: the element (at the loop index) of the array a pointer expression points to"""
@@ -1477,8 +2413,24 @@ class FuncTranslator:
                 c2 = self.convert(self.arith(name[-1], f"{a}.2", f"{b}.2", el), el, t.to, n)
                 return f"({c1}, {c2})", t
             self.fail(f"operator call `{name}`", n)
+        if k == "CXXMemberCallExpr" and name == "Encode" and len(args) == 1:
+            obj = _strip(n["inner"][0]["inner"][0])
+            if obj.get("kind") == "DeclRefExpr" and obj["referencedDecl"]["id"] in self.sink_params:
+                # EncoderBuffer::Encode(const T &) for a one-byte T: appends the byte, returns true (the bit encoder
+                # of the buffer is not active — an assumption of the byte-sink model, see notes/xlate.md)
+                a, at = self.ev(args[0], ctx)
+                if at.kind != "int" or at.bits != 8:
+                    self.fail("EncoderBuffer::Encode of something other than one byte", n)
+                if self.no_effect:
+                    self.fail("call with effects inside `&&`, `||` or `?:`", n)
+                self.assign(ctx, "w:", f"({ctx.vals['w:']} ++ [{self.convert(a, at, CT('int', signed=False, bits=8), n)}])", self.pre)
+                return "true", CT("bool")
         # a function of the translated set
         name, callee, info, cparms = self.resolve_callee(n, ctx)
+        if getattr(info, "optional", False):
+            self.fail(f"call of `{name}` which contains loops", n)
+        if any(o[0] in ("sink", "log", "stream") for o in info.outs) or info.fueled:
+            return self.effect_call(n, ctx, name, callee, info, cparms)
         if len(info.outs) != 1 or info.outs[0][0] != "ret":
             self.fail(f"call of `{name}` which has output parameters or modifies the object", n)
         texts = []
@@ -1492,6 +2444,11 @@ class FuncTranslator:
                 if not self.pointwise:
                     self.fail(f"call of the pointwise function `{name}` outside pointwise mode", n)
                 texts.append(self.ev_ptr(a, ctx))
+            elif how[0] == "src":
+                b, o = self.ev_bptr(a, ctx)
+                if not b.startswith("src:"):
+                    self.fail(f"call of `{name}`: the source argument is not a read-only byte pointer", n)
+                texts.append(b[4:] if o == "0" else f"(fun i => {b[4:]} ({o} + i))")
             else:
                 self.fail(f"call of `{name}` with a pointer argument", n)
         s = f"({info.lean_name}" + (" self" if info.struct else "") + "".join(" " + x for x in texts) + ")"
@@ -1501,6 +2458,13 @@ class FuncTranslator:
 def _strip(n):
     while n.get("kind") in ("ImplicitCastExpr", "ParenExpr", "ExprWithCleanups", "MaterializeTemporaryExpr") and \
             (n.get("kind") != "ImplicitCastExpr" or n.get("castKind") in ("LValueToRValue", "NoOp", "UncheckedDerivedToBase", "DerivedToBase")):
+        n = n["inner"][0]
+    return n
+
+
+def _strip_casts(n):
+    while n.get("kind") in ("ImplicitCastExpr", "ParenExpr", "ExprWithCleanups", "MaterializeTemporaryExpr",
+                            "CXXStaticCastExpr", "CStyleCastExpr"):
         n = n["inner"][0]
     return n
 
@@ -1566,14 +2530,23 @@ def generate(repo, build_dir, workdir, whitelist=None):
     for w in whitelist:
         q = (w["cls"] + "::" if w.get("cls") else "") + w["fn"]
         try:
-            decl = ix.find_function(w.get("cls"), w["fn"], w.get("params"))
-            tr.translate(decl)
+            decl = ix.find_function(w.get("cls"), w["fn"], w.get("params"), w.get("targs"))
+            tr.translate(decl, w)
         except XlateError as ex:
             failed.append((q, str(ex)))
             notes.append(f"xlate: {q} not translated: {ex}")
         except (KeyError, IndexError, TypeError, ValueError) as ex:     # malformed / unexpected AST shape
             failed.append((q, f"unexpected AST shape: {ex!r}"))
             notes.append(f"xlate: {q} not translated: unexpected AST shape {ex!r}")
+    if tr.trait_checks:
+        chk = os.path.join(workdir, "xlate_traits.cc")
+        with open(chk, "w") as f:
+            f.write("#include <type_traits>\n#include <cstdint>\n" + "\n".join(sorted(set(tr.trait_checks))) + "\n")
+        rc, o, e = C.run([CLANG, "-std=gnu++17", "-fsyntax-only", chk], timeout=120)
+        if rc != 0:
+            out.append(f"-- XLATE-FAILED (type traits evaluated differently by clang): {e.strip()[-300:]}")
+            out.append("\nend Draco.Generated\n")
+            return "\n".join(out), ["xlate: type trait check failed"]
     for sid in tr.struct_order:
         name, fields, skipped = tr.structs[sid]
         out.append(f"/-- integer fields of `{name}`" + (f" (not represented: {', '.join(skipped)})" if skipped else "") + " -/")
@@ -1583,8 +2556,9 @@ def generate(repo, build_dir, workdir, whitelist=None):
         for (f, t) in fields:
             out.append(f"  {lean_ident(f)} : {t.lean()}")
         out.append("deriving Repr, DecidableEq\n")
-    for i in tr.order:
-        info = tr.done[i]
+    for key in tr.order:
+        info = tr.done[key]
+        i = key.split("#")[0]
         d = ix.byid[i]
         cls = ix.class_of(d)
         loc = d.get("loc", {})
